@@ -100,10 +100,10 @@ M("c07-sortedkeys-unsorted", "C07", "src/ckl/values.py",
 # ---- C15
 M("c15-index-minus-one", "C15", "src/ckl/nodes.py",
   '''            s = value.value
-            i = int(idx.value)
+            i = toIndex(idx, self.pos)
             if i < 0:
                 i = i + len(s)''', '''            s = value.value
-            i = int(idx.value)
+            i = toIndex(idx, self.pos)
             if i < 0:
                 i = i + len(s) - 1''', "negative string index off by one")
 M("c15-deleteat-nonorm", "C15", "src/ckl/values.py",
@@ -112,20 +112,16 @@ M("c15-deleteat-nonorm", "C15", "src/ckl/values.py",
   "delete_at ignores negative indexes")
 M("c15-slice-clamp-before", "C15", "src/ckl/nodes.py",
   '''            lst = value.value
-            start = int(start.value)
-            end = int(end.value) if end else len(lst)
+            start = toIndex(start, self.pos)
+            end = toIndex(end, self.pos) if end else len(lst)
             if start < 0:
-                start += len(lst)
-            if end < 0:
-                end += len(lst)''', '''            lst = value.value
-            start = int(start.value)
-            end = int(end.value) if end else len(lst)
+                start += len(lst)''', '''            lst = value.value
+            start = toIndex(start, self.pos)
+            end = toIndex(end, self.pos) if end else len(lst)
             if end > len(lst):
                 end = len(lst) - 1
             if start < 0:
-                start += len(lst)
-            if end < 0:
-                end += len(lst)''', "list slice end clamped to n-1 when too large")
+                start += len(lst)''', "list slice end clamped to n-1 when too large")
 
 # ---- C17
 M("c17-no-400-rule", "C17", "src/ckl/date.py",
